@@ -8,7 +8,6 @@ import (
 
 	"github.com/ChrisTrenkamp/xsel/node"
 	"github.com/ChrisTrenkamp/xsel/store"
-	"golang.org/x/text/language"
 )
 
 type Function func(context Context, args ...Result) (Result, error)
@@ -450,23 +449,24 @@ func lang(context Context, args ...Result) (Result, error) {
 	return Bool(false), nil
 }
 
+// checkLang reports whether the xml:lang value targStr is the language
+// srcStr or a sublanguage of it: equal to it, or starting with it followed by
+// a '-', ignoring case (XPath 1.0 section 4.3).
 func checkLang(srcStr, targStr string) Bool {
-	srcLang := language.Make(srcStr)
-	srcRegion, srcRegionConf := srcLang.Region()
+	srcStr = asciiLower(srcStr)
+	targStr = asciiLower(targStr)
 
-	targLang := language.Make(targStr)
-	targRegion, targRegionConf := targLang.Region()
+	return Bool(targStr == srcStr || strings.HasPrefix(targStr, srcStr+"-"))
+}
 
-	if srcRegionConf == language.Exact && targRegionConf != language.Exact {
-		return Bool(false)
-	}
+func asciiLower(str string) string {
+	return strings.Map(func(r rune) rune {
+		if r >= 'A' && r <= 'Z' {
+			return r + ('a' - 'A')
+		}
 
-	if srcRegion != targRegion && srcRegionConf == language.Exact && targRegionConf == language.Exact {
-		return Bool(false)
-	}
-
-	_, _, conf := language.NewMatcher([]language.Tag{srcLang}).Match(targLang)
-	return Bool(conf >= language.High)
+		return r
+	}, str)
 }
 
 func number0(context Context, args ...Result) (Result, error) {
